@@ -19,42 +19,13 @@ MODULES = modules_for("C15")
 
 
 # ---- known-finding classes (decidable on the script + iolog trace), see known_findings.jsonl ------------------------------
-def ev_parse(trace):
-    """iolog trace -> list of (kind, req, pos, ans, altered)"""
-    out = []
-    for tok in trace.split(","):
-        m = re.match(r"([LSRWT])(-?\d+)?(?:/(\d+))?@(-?\d+):(-?\d+)(!?)$", tok.strip())
-        if not m:
-            continue
-        out.append((m.group(1), int(m.group(2) or 0), int(m.group(4)), int(m.group(5)), m.group(6) == "!"))
-    return out
-
-
 def classify(rep, wl, fault, prob, lines, hdr_len):
     """-> known-finding id or None.  A failure is attributed to an entry only if the scenario is in the entry's class AND
-    shows its signature."""
-    i, kind, single = fault
-    tr = next((l for l in reversed(lines) if l.startswith("ok trace=")), "")
-    ev = ev_parse(tr[len("ok trace="):]) if tr else []
-    major = (rep.word >> 16) & 0xFFF
-    bw = getattr(rep, "blockwidth", 0)
-    if prob.cat == "partial-frame":
-        # class: a read/write callback transferred a byte count that ends inside a frame (a short answer, or end of file reached
-        # from a position that is not on a frame boundary); sample-granular layouts with >= 2 channels
-        if rep.ch >= 2 and bw > 0 and any(e[0] in "RW" and 0 < e[3] < e[1] and e[3] % bw != 0 for e in ev):
-            return "KF-C15-PARTIAL-FRAME"
-    if prob.cat == "prefix":
-        # class: a psf_fseek failed and the library wrote nevertheless (header writers of every container: seek to 0 / seek back;
-        # the PAF24 block writer), or PAF's header writer -- which does not seek -- ran after a failed header read
-        failed_seek = False
-        for k, e in enumerate(ev):
-            if e[0] == "S" and e[4] and e[3] == -1:
-                failed_seek = True
-            if e[0] == "W" and e[3] > 0 and failed_seek and kind == 3:
-                return "KF-C15-HEADER-POSITION"
-            if e[0] == "W" and e[2] != 0 and e[3] > 0 and major == 0x05 and e[1] == 2048:
-                return "KF-C15-HEADER-POSITION"
-    # (round 4) KF-C15-SCAN-HANG is repaired: a hang of the CAF / SVX chunk scanners is no longer waived
+    shows its signature.
+    (round 8) No C15 finding is open: KF-C15-PARTIAL-FRAME (wrappers report whole frames and force a re-seek) and
+    KF-C15-HEADER-POSITION (seek latch in file_io.c; paf_write_header seeks to 0) are repaired, their classes are no longer
+    waived -- a `partial-frame` or `prefix` problem is a VIOLATION.  The only bytes the `prefix` clause exempts are those of a torn
+    frame (c15lib.torn_regions): a fragment the write call did not report, completed by the caller's next write."""
     return None
 
 
@@ -201,6 +172,16 @@ def run(ctx):
     if unmodelled > len(jobs) // 20:
         corr.append(("unmodelled", 0, "", "%d scripts" % unmodelled, "the model declines them", jobs[0][1]))
 
+    # ---------------- stage 2b: every read / write wrapper under a transfer that ends inside a frame (vlib/c15wrap.py) ----------
+    from .. import c15wrap
+    wprobs, wcorr = c15wrap.run(ctx)
+    for (nm, text, sc) in wprobs[:4]:
+        found_input = True
+        ctx.violation("c15-wrapper-" + nm.replace("|", "-"),
+                      "# C15 / C05 violated on the implementation's own transcript (wrapper matrix, one byte short inside a frame): %s\n# case %s (file|side|caller type|i=items f=frames b=raw bytes)\nc15-wrapper-case %s\n--- script\n%s"
+                      % (text, nm, nm, sc))
+    corr += [(nm, k, "", a, b, sc) for (nm, k, a, b, sc) in wcorr]
+
     # ---------------- stage 3: K-complete enumeration on the implementation ----------------------------------------
     reps = [L.Rep(*r) for r in L.REPS]          # the whole list fits the quick budget (about 15 s); the tiers differ in the L1 set and timeouts
     prepare(ctx, reps)
@@ -226,6 +207,7 @@ def run(ctx):
     stats = collections.Counter()
     fired_hist = collections.Counter()
     kf_hits = collections.Counter()
+    kf_names = {}
     violations = []
     for nm, (r, wl, pt, sc) in meta.items():
         lines = out.get(nm, [])
@@ -234,6 +216,10 @@ def run(ctx):
         ctx.count(len(lines_j), "%s:%s:%s" % (r.name, wl, L.KIND_NAME[pt[1]]))
         stats["scripts"] += 1
         stats["fired" if info["fired"] or any(l.startswith("TIMEOUT") for l in lines) else "not_fired"] += 1
+        if info.get("torn"):
+            stats["torn_frame_scripts"] += 1
+        if info.get("torn_rewritten"):
+            stats["torn_fragment_completed_by_next_write"] += 1
         fired_hist[min(info["fired"], 5)] += 1
         if (r.word >> 16) & 0xFFF == 0x11 and wl != "r":
             probs = [p for p in probs if p.cat != "prefix"]     # SDS: the unfinished block is provisional by design and is rewritten
@@ -241,13 +227,16 @@ def run(ctx):
             kid = classify(r, wl, pt, pr, lines, r.dataoffset.get(wl, 0))
             if kid and kid in known:
                 kf_hits[kid] += 1
+                kf_names.setdefault(kid, []).append(nm)
                 ctx.known_finding(known[kid])
                 continue
             violations.append((nm, r, wl, pt, pr, sc, lines))
     ctx.notes["enumeration"] = {"scripts": stats["scripts"], "scripts_in_which_a_fault_fired": stats["fired"], "scripts_without_a_firing": stats["not_fired"],
                                 "faults_fired_per_script_histogram(0..5+)": [fired_hist[k] for k in range(6)],
+                                "scripts_with_a_torn_frame(short write inside a frame)": stats["torn_frame_scripts"],
+                                "scripts_in_which_only_the_torn_fragment_was_rewritten": stats["torn_fragment_completed_by_next_write"],
                                 "formats": [r.name for r in reps], "K": {"%s/%s" % k: len(v["kinds"]) for k, v in FF.items()},
-                                "known_finding_hits": dict(kf_hits)}
+                                "known_finding_hits": dict(kf_hits), "known_finding_hit_examples": {k: v[:12] for k, v in kf_names.items()}}
     ctx.coverage["exhaustive"] = True
     reported = set()
     for (nm, r, wl, pt, pr, sc, lines) in violations:
@@ -294,6 +283,9 @@ def replay(ctx, path):
         print(text)
         ctx.report(path, no_input=True)
         return
+    if "c15-wrapper-case " in text:
+        from .. import c15wrap
+        return c15wrap.replay(ctx, path, text)
     head, script = text.split("--- script", 1)
     script = script.lstrip("\n")
     cat = next((l.split()[1] for l in head.split("\n") if l.startswith("c15-category ")), None)
